@@ -209,8 +209,9 @@ func (u *Unit) onlyDefReaching(v types.Object, a *flow.Site, at *flow.Block) boo
 // ---------------------------------------------------------------- path search
 
 type pathStep struct {
-	b    *flow.Block
-	prev *pathStep
+	b     *flow.Block
+	prev  *pathStep
+	state string // polarities of the stable literals met on the way (see search)
 }
 
 func (u *Unit) describePath(p *pathStep) string {
@@ -233,9 +234,18 @@ func (u *Unit) describePath(p *pathStep) string {
 
 // search walks forward from (start block, start node index) and returns a path to a target without
 // passing a stop. stopNode/targetNode are evaluated per node; stopBlock cuts whole blocks (edge gates).
+// Paths that take both branches of a test on the same *stable literal* are not followed: a stable literal is a branch
+// condition that is a plain boolean local or parameter (possibly negated); its value is fixed between two assignments
+// to it, so `if flag {A}; …; if !flag {B}` has no path through neither A nor B. The polarity seen is forgotten at every
+// assignment to the variable (loops re-define per-iteration locals).
 func (u *Unit) search(start *flow.Block, from int, stopBlock func(*flow.Block) bool,
 	visit func(b *flow.Block, i int) (stop, hit bool), exitHit func(*flow.Block) bool) *pathStep {
-	seen := map[*flow.Block]bool{}
+	u.stableLits()
+	type key struct {
+		b  *flow.Block
+		st string
+	}
+	seen := map[key]bool{}
 	var queue []*pathStep
 	scan := func(ps *pathStep, from int) (*pathStep, bool) {
 		b := ps.b
@@ -246,6 +256,9 @@ func (u *Unit) search(start *flow.Block, from int, stopBlock func(*flow.Block) b
 			}
 			if stop {
 				return nil, true
+			}
+			for _, k := range u.litAssigned[litPos{b, i}] {
+				ps.state = dropLit(ps.state, k)
 			}
 		}
 		return nil, false
@@ -260,14 +273,29 @@ func (u *Unit) search(start *flow.Block, from int, stopBlock func(*flow.Block) b
 		queue = queue[1:]
 		for _, e := range ps.b.Succs {
 			nb := e.To
-			if seen[nb] {
+			st := ps.state
+			if l, ok := u.edgeLit[nb]; ok {
+				switch hasLit(st, l.key) {
+				case 0:
+					st = addLit(st, l.key, l.pol)
+				case 1:
+					if !l.pol {
+						continue // the literal was seen true on this path
+					}
+				case 2:
+					if l.pol {
+						continue
+					}
+				}
+			}
+			if seen[key{nb, st}] {
 				continue
 			}
-			seen[nb] = true
+			seen[key{nb, st}] = true
 			if stopBlock != nil && stopBlock(nb) {
 				continue
 			}
-			nps := &pathStep{b: nb, prev: ps}
+			nps := &pathStep{b: nb, prev: ps, state: st}
 			if exitHit != nil && exitHit(nb) {
 				return nps
 			}
@@ -281,6 +309,99 @@ func (u *Unit) search(start *flow.Block, from int, stopBlock func(*flow.Block) b
 		}
 	}
 	return nil
+}
+
+type litPos struct {
+	b *flow.Block
+	i int
+}
+type edgeLiteral struct {
+	key string
+	pol bool
+}
+
+// state encoding: ";key=1;other=0;"
+func hasLit(st, k string) int {
+	if strings.Contains(st, ";"+k+"=1;") {
+		return 1
+	}
+	if strings.Contains(st, ";"+k+"=0;") {
+		return 2
+	}
+	return 0
+}
+func addLit(st, k string, pol bool) string {
+	if st == "" {
+		st = ";"
+	}
+	if pol {
+		return st + k + "=1;"
+	}
+	return st + k + "=0;"
+}
+func dropLit(st, k string) string {
+	st = strings.Replace(st, ";"+k+"=1;", ";", 1)
+	return strings.Replace(st, ";"+k+"=0;", ";", 1)
+}
+
+// stableLits finds the branch edges whose condition is a plain boolean variable or its negation, and where those
+// variables are assigned. At most six variables are tracked per function.
+func (u *Unit) stableLits() {
+	if u.edgeLit != nil {
+		return
+	}
+	u.edgeLit = map[*flow.Block]edgeLiteral{}
+	u.litAssigned = map[litPos][]string{}
+	tracked := map[string]types.Object{}
+	for _, b := range u.G.Blocks {
+		if b.EdgeCond == nil {
+			continue
+		}
+		f := b.EdgeCond
+		pol := true
+		for f.Op == flow.OpNot && len(f.Kids) == 1 {
+			f, pol = f.Kids[0], !pol
+		}
+		if f.Op != flow.OpAtom || f.Expr == nil {
+			continue
+		}
+		id, ok := ast.Unparen(f.Expr).(*ast.Ident)
+		if !ok {
+			continue
+		}
+		v, isVar := u.Info().ObjectOf(id).(*types.Var)
+		if !isVar || v.IsField() || v.Pkg() == nil || v.Parent() == v.Pkg().Scope() {
+			continue
+		}
+		// the canonical form must be the variable itself (not an expanded definition)
+		cf := u.C.Formula(b.EdgeCond)
+		for cf.Op == flow.OpNot && len(cf.Kids) == 1 {
+			cf = cf.Kids[0]
+		}
+		if cf.Op != flow.OpAtom || cf.Cmp != nil {
+			continue
+		}
+		k := cf.Key
+		if o, known := tracked[k]; known && o != types.Object(v) {
+			continue
+		}
+		if _, known := tracked[k]; !known && len(tracked) >= 6 {
+			continue
+		}
+		tracked[k] = v
+		u.edgeLit[b] = edgeLiteral{k, pol}
+	}
+	for _, s := range u.Sites {
+		if s.Kind != flow.SStore || s.Local == nil {
+			continue
+		}
+		for k, o := range tracked {
+			if o == s.Local {
+				p := litPos{s.Block, s.NodeIdx}
+				u.litAssigned[p] = append(u.litAssigned[p], k)
+			}
+		}
+	}
 }
 
 // ---------------------------------------------------------------- ORDER
